@@ -1,25 +1,58 @@
-import AdfModel.Kernel
+import AdfModel.Api
 open Adf
 
-partial def loop (h : IO.FS.Stream) (out : IO.FS.Stream) : IO Unit := do
+def loadImage (d : Drv) (path : String) : IO (List String × Drv) := do
+  let data ← IO.FS.readBinFile path
+  let bytes := data.toList
+  let nb := (bytes.length + 511) / 512
+  let rec go (i : Nat) (rest : Bytes) (m : Std.HashMap Nat Bytes) (fuel : Nat) : Std.HashMap Nat Bytes :=
+    match fuel with
+    | 0 => m
+    | fuel+1 =>
+      if rest.isEmpty then m else
+      let blk := rest.take 512
+      let m := if blk.all (· == 0) then m else m.insert i (padTo blk 512)
+      go (i+1) (rest.drop 512) m fuel
+  let disk := go 0 bytes {} (nb + 1)
+  let w := d.w
+  let w := { w with cfg := { w.cfg with devSize := bytes.length, vols := [], native := false },
+                    st := { w.st with disk := disk, mem := { w.st.mem with vols := [], files := [] } }, devOpen := false }
+  return ([s!"= ok size={bytes.length}"], { d with w := w })
+
+def dumpImage (d : Drv) (path : String) : IO (List String × Drv) := do
+  let nb := d.w.cfg.devSize / 512
+  let mut ba := ByteArray.emptyWithCapacity (nb * 512)
+  for i in List.range nb do
+    for b in d.w.st.sector i do ba := ba.push b
+  IO.FS.writeBinFile path ba
+  return ([s!"= ok size={nb*512}"], d)
+
+partial def loop (h : IO.FS.Stream) (out : IO.FS.Stream) (d : Drv) : IO Unit := do
   let line ← h.getLine
   if line.isEmpty then return ()
   let l := line.trimAscii.toString
-  if l.isEmpty || l.startsWith "#" then loop h out else
+  if l.isEmpty || l.startsWith "#" then loop h out d else
   let args := (l.splitOn " ").filter (· ≠ "")
   match args with
-  | [] => loop h out
+  | [] => loop h out d
   | op :: _ =>
     if op.startsWith "k_" then
       for s in kernelOp args do out.putStrLn s
       out.putStrLn "."
+      loop h out d
     else
-      out.putStrLn s!"= bad-op {op}"
+      let (lines, d') ← (match d.dead, args with
+        | some f, _ => pure (["= DEAD " ++ f], d)
+        | none, ["loadimg", _, path] => loadImage d path
+        | none, ["dumpimg", _, path] => dumpImage d path
+        | none, _ => pure (stepOp d args))
+      for s in lines do out.putStrLn s
       out.putStrLn "."
-    loop h out
+      out.flush
+      loop h out d'
 
 def main : IO Unit := do
   let stdin ← IO.getStdin
   let stdout ← IO.getStdout
-  loop stdin stdout
+  loop stdin stdout {}
   stdout.flush
